@@ -206,6 +206,18 @@ impl ScancodeSet1 {
             // 0x6B My Computer
             // 0x6C Email
             // 0x6D Media Select
+            _ => Err(Error::UnknownKeyCode),
+        }
+    }
+
+    /// Implements the single byte codes for the extra keys of a JIS 106/109-key
+    /// keyboard.
+    ///
+    /// These are not extended codes: the i8042 translates the Set 2 codes
+    /// `0x13`, `0x51`, `0x64`, `0x67` and `0x6A` into the unprefixed Set 1
+    /// codes below (see the conversion table in the README).
+    fn map_jis_scancode(code: u8) -> Result<KeyCode, Error> {
+        match code {
             0x70 => Ok(KeyCode::Oem11),
             0x73 => Ok(KeyCode::Oem12),
             0x79 => Ok(KeyCode::Oem10),
@@ -213,6 +225,12 @@ impl ScancodeSet1 {
             0x7D => Ok(KeyCode::Oem13),
             _ => Err(Error::UnknownKeyCode),
         }
+    }
+
+    /// Implements all the unprefixed codes for Set 1 (the single byte codes,
+    /// plus the JIS keys).
+    fn map_unprefixed_scancode(code: u8) -> Result<KeyCode, Error> {
+        Self::map_scancode(code).or_else(|_| Self::map_jis_scancode(code))
     }
 
     /// Implements the extended byte codes for set 1 (prefixed with E1)
@@ -255,14 +273,14 @@ impl ScancodeSet for ScancodeSet1 {
                     0x80..=0xFF => {
                         // Break codes
                         Ok(Some(KeyEvent::new(
-                            Self::map_scancode(code - 0x80)?,
+                            Self::map_unprefixed_scancode(code - 0x80)?,
                             KeyState::Up,
                         )))
                     }
                     _ => {
                         // Make codes
                         Ok(Some(KeyEvent::new(
-                            Self::map_scancode(code)?,
+                            Self::map_unprefixed_scancode(code)?,
                             KeyState::Down,
                         )))
                     }
